@@ -202,6 +202,7 @@ def time_major(a2):
 
 class C06(Family):
     prop = "C06"
+    extra_modules = ["CtrlVerif.Props.C06Real"]      # realisations, long division, step/impulse
     externals = ["scipy.linalg.expm (its values are parameters of the continuous-time model; for "
                  "nilpotent A they are replaced by exact finite sums)",
                  "scipy.signal.dlsim / scipy.interpolate.make_interp_spline(k=1) (the model contains "
@@ -1112,4 +1113,5 @@ class C06(Family):
         return out
 
 
-FAMILY = C06
+from families.c06_tf import with_tf  # noqa: E402  (transfer-function stream, families/c06_tf.py)
+FAMILY = with_tf(C06)
